@@ -103,9 +103,11 @@ def first_diff(a, b):
 
 
 class Spec:
-    def __init__(self, pairs_at_root=True, values=("W",), max_rects=3):
+    def __init__(self, pairs_at_root=True, values=("W",), max_rects=3, writes=True, singles=True):
         self.pairs_at_root = pairs_at_root
         self.max_rects = max_rects
+        self.writes = writes  # False: structural events only (used with rectangle pairs on taller/wider tables)
+        self.singles = singles
 
     def initial(self, init_id):
         """init_id = 'RxC' or 'RxC+saved:r0,c0,r1,c1' (one rectangle merged, then the open document saved once and kept)."""
@@ -139,16 +141,18 @@ class Spec:
         evs = []
         if len(st.rects) < self.max_rects and nr * nc <= 25:
             free = [x for x in all_rects(nr, nc) if all(disjoint(x, y) for y in st.rects)]
-            for x in free:
-                evs.append(["merge", list(x)])
+            if self.singles:
+                for x in free:
+                    evs.append(["merge", list(x)])
             if self.pairs_at_root and not st.rects:
                 for i, x in enumerate(free):
                     for y in free[i + 1 :]:
                         if disjoint(x, y):
                             evs.append(["merge2", list(x), list(y)])
-        for r in range(nr):
-            for c in range(nc):
-                evs.append(["write", r, c])
+        if self.writes:
+            for r in range(nr):
+                for c in range(nc):
+                    evs.append(["write", r, c])
         if nr < 6:
             for i in list(range(nr)) + [None]:
                 evs.append(["add_row", i])
@@ -356,14 +360,17 @@ class Spec:
 # classed "tainted". Set to False once the library shifts its merge map.
 TAINT_ON_SHIFT = False
 
-SPECS = {"full": Spec(pairs_at_root=True), "nopairs": Spec(pairs_at_root=False)}
+SPECS = {"full": Spec(pairs_at_root=True), "nopairs": Spec(pairs_at_root=False),
+         # every disjoint PAIR of rectangles followed by every insertion/deletion (two ranges that both move, touch or stack)
+         "pairs-structural": Spec(pairs_at_root=True, writes=False, singles=False)}
 
 
 def plan(tier):
     if tier == "quick":
-        return [("full", ["3x3"], 1, True), ("nopairs", ["3x3"], 2, True), ("nopairs", ["3x3+saved:1,1,2,2", "3x3+saved:0,1,0,2"], 1, True), ("nopairs", ["2x5", "4x4"], 1, True)]
+        return [("full", ["3x3"], 1, True), ("nopairs", ["3x3"], 2, True), ("nopairs", ["3x3+saved:1,1,2,2", "3x3+saved:0,1,0,2"], 1, True), ("nopairs", ["2x5", "4x4"], 1, True),
+                ("pairs-structural", ["5x2", "2x5"], 2, True)]
     return [("full", ["3x3", "2x5", "4x4"], 2, True), ("nopairs", ["3x3"], 3, True), ("nopairs", ["3x3+saved:1,1,2,2", "3x3+saved:0,1,0,2", "4x4+saved:2,2,3,3"], 2, True),
-            ("nopairs", ["4x4"], 3, False), ("nopairs", ["2x3"], 4, True)]
+            ("nopairs", ["4x4"], 3, False), ("nopairs", ["2x3"], 4, True), ("pairs-structural", ["5x2", "2x5", "5x3", "4x4"], 2, True)]
 
 
 def main():
